@@ -10,7 +10,9 @@ META = dict(
                       'transition state; printed coefficients symbolic reals in [0.25,4] for every stoich_format in {.2f,.3f,.1f}, stoich_space '
                       'on/off, delimiters + = <=> . >> and a custom pair; parsed coefficients as symbolic digit strings d, dd, d.d, d., d.dd or '
                       'omitted, 0-1 blanks around; element balance with symbolic counts [0,10] and stoichiometry [0.25,4] over 1-2 elements; '
-                      'formulas of 1-3 element groups (symbol of 1-2 symbolic letters, count of 0-3 symbolic digits)',
+                      'formulas of 1-3 element groups (symbol of 1-2 symbolic letters, count of 0-3 symbolic digits); print-rounded groups: 19 concrete '
+                      'boundary coefficients (values that round across a digit or to a whole number: 0.996, 2.999, 9.6, 9.96, 99.5, ...) through the '
+                      'real CPython formatter for .0f/.1f/.2f/.3f with a symbolic 2-character name - the printed digits themselves are checked',
                 thorough='3 species per side; names up to 4 characters; formulas of 4 groups'),
     outside_claim=['print->parse composition relies on the CPython formatter contract: "{:.Nf}".format(v) is a decimal literal of value '
                    'within half a unit of its last place of v (the printer and the parser are each decided against that contract)',
@@ -95,6 +97,51 @@ def h_print(ctx, nsp, namelen, fmt, space, delim):
                 ctx.eq(lab, val, nus[i], tol=prec * 1.0001)
             else:
                 ctx.true(lab, abs(val - nus[i]) <= prec * 1.0001)
+
+
+BOUNDARY_COEFS = [0.5, 0.25, 1.004, 0.996, 1.5, 2.5, 2.999, 2.9949, 3.001, 9.6, 9.96, 9.996, 10.4, 19.96, 0.96, 0.04, 99.5, 100.4, 12.25]
+
+
+def h_print_rounded(ctx, fmt, space, nus):
+    """concrete boundary coefficients, symbolic names"""
+    for nu in nus:
+        _print_rounded(ctx, fmt, space, nu, '%r: ' % nu)
+
+
+def _print_rounded(ctx, fmt, space, nu, tag):
+    """the coefficient is a concrete boundary value, so the text comes from the real CPython formatter (digits after rounding included);
+    the species name stays symbolic"""
+    from pmutt.reaction import _write_reaction_state
+    name = _name(ctx, 's', 2)
+    out = _write_reaction_state(species=[Sp(ctx.string(name))], stoich=[nu], species_delimiter='+', stoich_format=fmt, stoich_space=space)
+    nd = int(fmt[1])
+    prec = 0.5 * 10 ** (-nd)
+    if ctx.is_sym():
+        cells = list(out.cells)
+        ok = len(cells) >= 2 and cells[-2] is name[0] and cells[-1] is name[1]
+        ctx.true(tag + 'name printed unchanged at the end', ok)
+        head = cells[:-2]
+        ctx.true(tag + 'coefficient text is concrete', all(isinstance(c, str) for c in head))
+        if not all(isinstance(c, str) for c in head):
+            return
+        text = ''.join(head)
+    else:
+        nm = ''.join(name)
+        ctx.true(tag + 'name printed unchanged at the end', out.endswith(nm))
+        text = out[:len(out) - len(nm)]
+    if space and text:
+        ctx.true(tag + 'one blank between coefficient and name', text.endswith(' ') and not text[:-1].endswith(' '))
+        text = text[:-1]
+    if not text:
+        ctx.true(tag + 'coefficient omitted only when it is 1 to the printed precision', abs(nu - 1) <= prec * 1.0001)
+        return
+    import re as _re
+    ctx.true(tag + 'coefficient is an unsigned decimal literal', _re.fullmatch(r'[0-9]+(\.[0-9]+)?', text) is not None)
+    if _re.fullmatch(r'[0-9]+(\.[0-9]+)?', text) is None:
+        return
+    ctx.true(tag + 'printed coefficient is the coefficient to the printed precision', abs(float(text) - nu) <= prec * 1.0001)
+    if '.' in text:
+        ctx.true(tag + 'decimal coefficient has the requested number of decimals', len(text.split('.')[1]) == nd)
 
 
 def h_to_string(ctx, ts, rd, sd):
@@ -341,6 +388,10 @@ def groups(tier):
                         continue
                     g.append(dict(name='print/%dsp/%s/space=%s/delim=%r' % (nsp, fmt, space, delim), harness=h_print,
                                   params=dict(nsp=nsp, namelen=2 if nsp > 1 else 3, fmt=fmt, space=space, delim=delim), no_validate=True))
+    for fmt in ('.2f', '.0f', '.1f', '.3f'):
+        for space in (False, True):
+            g.append(dict(name='print-rounded/%s/space=%s' % (fmt, space), harness=h_print_rounded,
+                          params=dict(fmt=fmt, space=space, nus=BOUNDARY_COEFS), no_validate=True))
     for ts in (False, True):
         for rd, sd in (('=', '+'), ('<=>', '+'), ('>>', '.'), (' => ', ' & ')):
             g.append(dict(name='to_string/ts=%s/%r/%r' % (ts, rd, sd), harness=h_to_string, params=dict(ts=ts, rd=rd, sd=sd), no_validate=True, max_paths=1000))
